@@ -34,7 +34,12 @@ class TSetup:
         if n is None:
             n = r.choice([1, 1, 2, 2, 3, 1, 2, 0])      # an allow-list may hold an empty route: nothing validates it
         ds = [r.choice(self.denoms) for _ in range(n + 1)]
-        return [{"pool_id": r.choice([1, 2, 7, 1000, 2 ** 40]), "token_in_denom": ds[i], "token_out_denom": ds[i + 1]} for i in range(n)]
+        route = [{"pool_id": r.choice([1, 2, 7, 1000, 2 ** 40]), "token_in_denom": ds[i], "token_out_denom": ds[i + 1]} for i in range(n)]
+        if n >= 2 and r.random() < 0.3:
+            # nothing requires consecutive hops to chain: an allow-listed route may name any denoms per hop
+            j = r.randrange(1, n)
+            route[j]["token_in_denom"] = r.choice(self.denoms)
+        return route
 
     def gen_routes(self, r):
         return [self.gen_route(r) for _ in range(r.choice([0, 1, 2, 3, 4]))]
